@@ -3,6 +3,7 @@ mod dir;
 mod dump;
 mod manifest;
 mod mkcont;
+mod pkgs;
 mod util;
 mod views;
 
@@ -32,6 +33,7 @@ fn main() {
             "manifest" => manifest::run(c, &tmp),
             "content" => content::run(c, &tmp),
             "dir" => dir::run(c, &tmp),
+            "pkgs" => pkgs::run(c, &tmp),
             f => panic!("unknown family {f}"),
         }));
         match r {
